@@ -118,7 +118,76 @@ func Load(dir string, needSSA bool, extraEnv ...string) (*Program, error) {
 	})
 	curProgram = p
 	roTableCache = map[*ssa.Global]*roTable{}
+	p.resolveRenames()
 	return p, nil
+}
+
+// funcAlias: unexported functions the rule tables know under another name than they carry in the analysed tree.
+// A rename of an unexported function changes nothing a caller can observe; the rules keep addressing the function by
+// the name they were written against. Filled by resolveRenames, consulted by funcName / Func / Method.
+var funcAlias = map[*ssa.Function]string{}
+var aliasTarget = map[string]*ssa.Function{}
+
+// sigKey: where a function lives and what it takes and returns (package, receiver type, signature).
+func sigKey(f *ssa.Function) string {
+	recv := ""
+	if r := f.Signature.Recv(); r != nil {
+		recv = r.Type().String()
+	}
+	tuple := func(t *types.Tuple) string {
+		var parts []string
+		for i := 0; i < t.Len(); i++ {
+			parts = append(parts, t.At(i).Type().String())
+		}
+		return strings.Join(parts, ",")
+	}
+	variadic := ""
+	if f.Signature.Variadic() {
+		variadic = "..."
+	}
+	return funcPkgPath(f) + "|" + recv + "|(" + tuple(f.Signature.Params()) + variadic + ")(" + tuple(f.Signature.Results()) + ")" + fmt.Sprint(f.Signature.TypeParams().Len())
+}
+
+// resolveRenames: for every unexported function of the pinned tree (knownSigs) that the analysed tree no longer has
+// under that name, the one top-level function the rule tables do not know that lives in the same package, has the same
+// receiver and the same signature takes its place. Several candidates, or none: no alias (the anchor is reported lost).
+func (p *Program) resolveRenames() {
+	funcAlias = map[*ssa.Function]string{}
+	aliasTarget = map[string]*ssa.Function{}
+	present := map[string]bool{}
+	var unknown []*ssa.Function
+	for _, f := range p.ModFuncs {
+		if f.Parent() != nil || f.Origin() != nil || f.Synthetic != "" {
+			continue
+		}
+		k := funcNameRaw(f)
+		present[k] = true
+		if !knownFuncs[k] {
+			unknown = append(unknown, f)
+		}
+	}
+	var names []string
+	for name := range knownSigs {
+		names = append(names, name)
+	}
+	sort.Strings(names)
+	used := map[*ssa.Function]bool{}
+	for _, name := range names {
+		if present[name] {
+			continue
+		}
+		var cands []*ssa.Function
+		for _, f := range unknown {
+			if !used[f] && sigKey(f) == knownSigs[name] {
+				cands = append(cands, f)
+			}
+		}
+		if len(cands) == 1 {
+			funcAlias[cands[0]] = name
+			aliasTarget[name] = cands[0]
+			used[cands[0]] = true
+		}
+	}
 }
 
 // InModule reports whether the function's code belongs to one of the module packages
@@ -201,6 +270,12 @@ func (p *Program) Func(pkg, name string) *ssa.Function {
 	if f := sp.Func(name); f != nil {
 		return f
 	}
+	// renamed in the analysed tree (resolveRenames)
+	for _, key := range []string{name, sp.Pkg.Name() + "." + name, pkg[strings.LastIndex(pkg, "/")+1:] + "." + name} {
+		if f := aliasTarget[key]; f != nil && funcPkgPath(f) == pkg {
+			return f
+		}
+	}
 	return nil
 }
 
@@ -221,12 +296,22 @@ func (p *Program) Method(pkg, typ, name string) *ssa.Function {
 			}
 		}
 	}
+	for key, f := range aliasTarget {
+		if strings.HasSuffix(key, typ+")."+name) && funcPkgPath(f) == pkg {
+			return f
+		}
+	}
 	return nil
 }
 
 // funcKey is the line-independent construct key of a function: pkg-relative name; anonymous
 // functions are "Parent$n" as numbered by go/ssa (stable under edits elsewhere in the file).
 func (p *Program) funcKey(f *ssa.Function) string {
+	if len(funcAlias) > 0 {
+		if n := funcName(f); n != funcNameRaw(f) {
+			return n // renamed in the analysed tree: keyed by the name the rules (and the findings file) know
+		}
+	}
 	s := f.String()
 	s = strings.ReplaceAll(s, modPath+"/", "")
 	s = strings.ReplaceAll(s, modPath+".", "")
